@@ -171,6 +171,15 @@ t_engine_pre(int role, const uint8_t *data, size_t len)
 		break;
 	}
 	c.keykind = ((data[0] >> 4) & 3) % 3;
+	if (role == 0 && ((data[0] >> 4) & 3) == 3) {
+		/* (the key-kind bits mean nothing to a client) every suite followed by TLS_FALLBACK_SCSV, the documented way
+		   to signal a fallback: a value that is in the client's list without being a suite (defect 23e489c) */
+		static uint16_t with_scsv[TP_NSUITES + 1];
+		size_t q;
+		for (q = 0; q < TP_NSUITES; q ++) with_scsv[q] = tp_suites[q].id;
+		with_scsv[TP_NSUITES] = 0x5600;
+		c.suites = with_scsv; c.nsuites = TP_NSUITES + 1;
+	}
 	c.client_auth = role == 1 ? ((data[0] >> 6) & 1) : ((data[0] >> 6) & 3) % 3;
 	memset(c.seed, 0x5A, 32);
 	cst = data[1] >= 0xFD && data[1] != 0xFF ? 0xFFFFFF00u + data[1] : data[1];
@@ -917,6 +926,34 @@ gen_prehandshake_record_seeds(void)
 	}
 }
 
+/* a client that lists TLS_FALLBACK_SCSV (configuration bits 4-5 = 3): ServerHello selecting 0x5600 (defect 23e489c),
+ * selecting a real suite, each followed by the server's certificate and ServerHelloDone */
+static void
+gen_scsv_seeds(void)
+{
+	static const uint16_t pick[3] = { 0x5600, 0x002F, 0x00FF };
+	int lay, k;
+	for (lay = 0; lay < 3; lay ++) for (k = 0; k < 3; k ++) {
+		unsigned char *o = gbuf;
+		size_t cl = FX_srv_rsa_crt_len, q;
+		*o ++ = (unsigned char)(lay | (2 << 2) | (3 << 4)); *o ++ = 0xFF;
+		/* ServerHello */
+		*o ++ = 22; *o ++ = 3; *o ++ = 3; *o ++ = 0; *o ++ = 42;
+		*o ++ = 2; *o ++ = 0; *o ++ = 0; *o ++ = 38; *o ++ = 3; *o ++ = 3;
+		for (q = 0; q < 32; q ++) *o ++ = (unsigned char)(0x40 + q);
+		*o ++ = 0; *o ++ = (unsigned char)(pick[k] >> 8); *o ++ = (unsigned char)pick[k]; *o ++ = 0;
+		/* Certificate */
+		*o ++ = 22; *o ++ = 3; *o ++ = 3; *o ++ = (unsigned char)((cl + 10) >> 8); *o ++ = (unsigned char)(cl + 10);
+		*o ++ = 11; *o ++ = 0; *o ++ = (unsigned char)((cl + 6) >> 8); *o ++ = (unsigned char)(cl + 6);
+		*o ++ = 0; *o ++ = (unsigned char)((cl + 3) >> 8); *o ++ = (unsigned char)(cl + 3);
+		*o ++ = 0; *o ++ = (unsigned char)(cl >> 8); *o ++ = (unsigned char)cl;
+		memcpy(o, FX_srv_rsa_crt, cl); o += cl;
+		/* ServerHelloDone */
+		*o ++ = 22; *o ++ = 3; *o ++ = 3; *o ++ = 0; *o ++ = 4; *o ++ = 14; *o ++ = 0; *o ++ = 0; *o ++ = 0;
+		emit(gbuf, (size_t)(o - gbuf));
+	}
+}
+
 static size_t
 read_file(const char *path, unsigned char *o, size_t max)
 {
@@ -943,7 +980,7 @@ gen_corpus(void)
 	keys[0] = FX_srv_rsa_key; klen[0] = FX_srv_rsa_key_len; keys[1] = FX_srv_ecec_key; klen[1] = FX_srv_ecec_key_len;
 	keys[2] = FX_srv_ec384_key; klen[2] = FX_srv_ec384_key_len; keys[3] = FX_weak_rsa_key; klen[3] = FX_weak_rsa_key_len;
 	switch (target) {
-	case 0: gen_handshake_seeds(0); gen_prehandshake_record_seeds(); break;
+	case 0: gen_handshake_seeds(0); gen_prehandshake_record_seeds(); gen_scsv_seeds(); break;
 	case 1: gen_handshake_seeds(1); gen_prehandshake_record_seeds(); break;
 	case 2: case 3: {
 		/* scripts: app data, close_notify, warning alert, HelloRequest / garbage handshake, CCS, raw garbage, wrong seq */
